@@ -37,8 +37,9 @@ def C(fn, *args, **kw):
 def scenarios():
     S = []
 
-    def add(name, calls, warm=False, cache='empty'):
-        S.append({'name': name, 'calls': calls, 'warm': warm, 'cache': cache})
+    def add(name, calls, warm=False, cache='empty', pre=()):
+        # pre: calls made one after the other before the threads start (part of the scenario's start state)
+        S.append({'name': name, 'calls': calls, 'warm': warm, 'cache': cache, 'pre': list(pre)})
     for warm in (False, True):
         w = '-warm' if warm else '-first'
         add('athlon-score-x-score' + w, [C('athlon_score', 'M', '100', 11.0), C('athlon_score', 'F', 'LJ', 5.5)], warm)
@@ -95,6 +96,16 @@ def scenarios():
         add('valid_against-raising-x-ok-' + cache, [C('valid_against_schema', 'sample-jsons/event_invalid.json', 'json/event.json', expect_failure=True),
                                                    C('valid_against_schema', 'sample-jsons/athlete.json', 'json/athlete.json')], False, cache)
         add('schema_valid-missing-file-x-ok-' + cache, [C('schema_valid', 'json/no-such-schema.json'), C('schema_valid', 'json/race.json')], False, cache)
+    # an answer already cached as False, asked again by a caller who expects the error, next to a miss that has to evict
+    for cache in ('empty', 'full'):
+        add('valid_against-expect-on-cached-false-x-miss-' + cache,
+            [C('valid_against_schema', 'sample-jsons/event_invalid.json', 'json/event.json', expect_failure=True),
+             C('valid_against_schema', 'sample-jsons/athlete.json', 'json/athlete.json')], False, cache,
+            pre=[C('valid_against_schema', 'sample-jsons/event_invalid.json', 'json/event.json')])
+        add('schema_valid-expect-on-cached-false-x-miss-' + cache,
+            [C('schema_valid', 'json/definitions/vertical_jump_performance.json', __import__('jsonschema').Draft4Validator, True),
+             C('schema_valid', 'json/race.json')], False, cache,
+            pre=[C('schema_valid', 'json/definitions/vertical_jump_performance.json', __import__('jsonschema').Draft4Validator)])
     # triples
     add('triple-athlon-first', [C('athlon_score', 'M', '100', 11.0), C('athlon_score', 'F', 'LJ', 5.5), C('athlon_performance_needed', 'M', 'HJ', 700)])
     add('triple-wma-first', [C('wma_age_factor', 'm', 50, '100', year=2023), C('wma_age_factor', 'f', 72, 'MAR', year=2023), C('wma_age_grade', 'm', 35, 'HJ', 2.0, year=2023)])
@@ -173,7 +184,7 @@ class Harness(object):
             return f(*args, **kw)
         return go
 
-    def reset(self, warm, cache):
+    def reset(self, warm, cache, pre=()):
         for l in self.locks + sched.RUNTIME['locks']:
             l.renew()
         for m in self.reload_mods:
@@ -204,6 +215,14 @@ class Harness(object):
                     self.thunk(c)()
                 except Exception:
                     pass
+        for c in pre:
+            import contextlib
+            import io
+            try:
+                with contextlib.redirect_stdout(io.StringIO()):
+                    self.thunk(c)()
+            except Exception:
+                pass
 
     @staticmethod
     def outcome(fn):
@@ -219,12 +238,12 @@ class Harness(object):
             return self.ref_cache[key]
         alone = []
         for c in sc['calls']:
-            self.reset(sc['warm'], sc['cache'])
+            self.reset(sc['warm'], sc['cache'], sc.get('pre', ()))
             alone.append(self.outcome(self.thunk(c)))
         ok = True
         import itertools
         for perm in itertools.permutations(range(len(sc['calls']))):
-            self.reset(sc['warm'], sc['cache'])
+            self.reset(sc['warm'], sc['cache'], sc.get('pre', ()))
             got = {}
             for i in perm:
                 got[i] = self.outcome(self.thunk(sc['calls'][i]))
@@ -244,7 +263,7 @@ class Harness(object):
         n = []
         self.traces = []
         for i, c in enumerate(sc['calls']):
-            self.reset(sc['warm'], sc['cache'])
+            self.reset(sc['warm'], sc['cache'], sc.get('pre', ()))
             ctl = sched.Controller(core.REPO, {}, self.locks)
             ctl.record = []
             ctl.run([self.thunk(c)])
@@ -275,7 +294,7 @@ class Harness(object):
         if sc['name'] in self.deadlocked:
             ctx.count('unjudged.schedule-of-a-scenario-already-found-deadlocking')
             return
-        self.reset(sc['warm'], sc['cache'])
+        self.reset(sc['warm'], sc['cache'], sc.get('pre', ()))
         ctl = sched.Controller(core.REPO, points, self.locks)
         res, alive = ctl.run([self.thunk(sc['calls'][ci]) for ci in roles])
         ctx.count('eval.schedule')
@@ -331,7 +350,7 @@ def stress(h, ctx, rounds, nthreads, seed):
             ref = h.reference(sc)
             if ref is None:
                 continue
-            h.reset(sc['warm'], sc['cache'])
+            h.reset(sc['warm'], sc['cache'], sc.get('pre', ()))
             calls = [rnd.randrange(len(sc['calls'])) for _ in range(nthreads)]
             res = {}
             barrier = threading.Barrier(nthreads)
@@ -354,7 +373,7 @@ def stress(h, ctx, rounds, nthreads, seed):
                     res[tid] = h.outcome(f)
                 finally:
                     sys.settrace(None)
-            ths = [threading.Thread(target=body, args=(i,), daemon=True) for i in range(nthreads)]
+            ths = [threading.Thread(target=body, args=(i,), daemon=True, name='scorer') for i in range(nthreads)]
             for t in ths:
                 t.start()
             deadline = time.time() + 25
